@@ -2,8 +2,12 @@
 package props
 
 import (
+	"bytes"
 	"encoding/json"
 	"fmt"
+	"os/exec"
+	"strings"
+	"time"
 
 	"verif/mc/drive"
 	"verif/mc/fw"
@@ -62,4 +66,34 @@ func pow(b, e int) int {
 		r *= b
 	}
 	return r
+}
+
+// runChild runs a child process with a generous wall-clock limit. Expiry is
+// inconclusive (timedOut=true), never a verdict: the caller notes it and moves on.
+func runChild(c *fw.Ctx, cmd *exec.Cmd, stdin string, limit time.Duration) (stdout, stderr string, exit int, timedOut bool) {
+	cmd.Stdin = strings.NewReader(stdin)
+	var so, se bytes.Buffer
+	cmd.Stdout, cmd.Stderr = &so, &se
+	if err := cmd.Start(); err != nil {
+		return "", err.Error(), -1, false
+	}
+	done := make(chan error, 1)
+	go func() { done <- cmd.Wait() }()
+	var err error
+	select {
+	case err = <-done:
+	case <-time.After(limit):
+		cmd.Process.Kill()
+		<-done
+		c.Incompl("a child process was stopped after " + limit.String() + " (inconclusive)")
+		c.Note("child processes stopped by the wall-clock limit", 1)
+		return so.String(), se.String(), -1, true
+	}
+	if err != nil {
+		exit = -1
+		if ee, ok := err.(*exec.ExitError); ok {
+			exit = ee.ExitCode()
+		}
+	}
+	return so.String(), se.String(), exit, false
 }
